@@ -186,67 +186,91 @@ def neutralOffset (T : MassTable) (mono : Bool) (t : Key) : Option Rat :=
 def ionOffset (T : MassTable) (mono : Bool) (t : Key) : Option Rat :=
   if t = k "n" then some 0 else (neutralOffset T mono t).map (· + T.hplus mono)
 
-/-- residue sum from the hand-typed formulas -/
-def residueSum (T : MassTable) (mono : Bool) (seq : List Char) : Option Rat :=
-  seq.foldl (fun acc c => match acc, lookup c.toNat residueFormula with
-    | some a, some f => some (a + T.compMass mono f)
-    | _, _ => none) (some 0)
+/-- Σ over a list -/
+def sumR (l : List Rat) : Rat := l.foldr (· + ·) 0
+
+/-- residue sum from the hand-typed formulas (an unknown letter counts 0 and is outside the domain) -/
+def residueSum (T : MassTable) (mono : Bool) (seq : List Char) : Rat :=
+  sumR (seq.map fun c => T.compMass mono ((lookup c.toNat residueFormula).getD []))
+
+/-- count·(m(ion) − q·mₑ) for one stated adduct ion -/
+def adductIonTerm (T : MassTable) (mono : Bool) (a : List Nat) : Rat :=
+  match parseIonElements a with
+  | .ok (cnt, sym, ch) =>
+    if sym = kE then (cnt : Rat) * T.electron else (cnt : Rat) * (T.elem mono sym - (ch : Rat) * T.electron)
+  | .error _ => 0
 
 /-- Σ count·(m(ion) − q·mₑ): the stated adduct ions, each counted `count` times -/
-def adductTerm (T : MassTable) (mono : Bool) (s : List Nat) : Option Rat :=
-  (splitComma s).foldl (fun acc a => match acc, parseIonElements a with
-    | some acc, .ok (cnt, sym, ch) =>
-      if sym = kE then some (acc + (cnt : Rat) * T.electron)
-      else some (acc + (cnt : Rat) * (T.elem mono sym - (ch : Rat) * T.electron))
-    | _, _ => none) (some 0)
+def adductTerm (T : MassTable) (mono : Bool) (s : List Nat) : Rat :=
+  sumR ((splitComma s).map (adductIonTerm T mono))
 
 /-- charge term: `z` protons for the precursor; a fragment's first charge is the carrier the backbone chemistry
 leaves (`hplus`), every further one a proton; or exactly the stated adduct ions -/
-def chargeTerm (T : MassTable) (mono : Bool) (ion : Key) (charge : Int) (adducts : Option (List Nat)) : Option Rat :=
+def chargeTerm (T : MassTable) (mono : Bool) (ion : Key) (charge : Int) (adducts : Option (List Nat)) : Rat :=
   match adducts with
-  | some s =>
-    -- an explicit adduct list is specified for the (un)charged peptide only: for fragment ion types the library
-    -- replaces the whole ion-forming part (transferred hydrogens included) by the list, which C02 does not cover
-    if ion = ionP || ion = ionN then adductTerm T mono s else none
+  | some s => adductTerm T mono s
   | none =>
-    if ion = ionP || ion = ionN then some ((charge : Rat) * T.proton)
-    else some (T.hplus mono + ((charge : Rat) - 1) * T.proton)
+    if ion = ionP || ion = ionN then (charge : Rat) * T.proton
+    else T.hplus mono + ((charge : Rat) - 1) * T.proton
 
-def allMods (a : Annotation) (ion : Key) : List Mod :=
-  (if ion = ionP then a.labile.getD [] else []) ++ a.unknown.getD [] ++ a.nterm.getD [] ++ a.cterm.getD [] ++
-  (a.intervals.getD []).flatMap (fun iv => iv.mods.getD []) ++ (a.internal.getD []).flatMap (·.2)
+/-- μ(mod)·multiplier in the requested mode (0 when the modification does not resolve: outside the domain) -/
+def modValue (env : Env) (mono : Bool) (m : Mod) : Rat :=
+  (match (if mono then (env.res m.val).mono else (env.res m.val).avg) with
+    | .ok v => v
+    | .error _ => 0) * (m.mult : Rat)
 
-/-- Σ mult·μ(mod) over every written modification; global rules count once per matching residue / terminus -/
-def modSum (env : Env) (mono : Bool) (a : Annotation) (ion : Key) : Option Rat := do
-  let μ (m : Mod) : Option Rat :=
-    match (if mono then (env.res m.val).mono else (env.res m.val).avg) with
-    | .ok v => some (v * (m.mult : Rat))
-    | .error _ => none
-  let placed ← (allMods a ion).foldl (fun acc m => do let a ← acc; let v ← μ m; pure (a + v)) (some (0 : Rat))
-  let stat ← match a.static with
-    | none => some (0 : Rat)
-    | some st =>
-      match env.parseStatic st with
-      | .error _ => none
-      | .ok map => map.foldl (fun acc (p : List Char × List Mod) => do
-          let a0 ← acc
-          let s ← p.2.foldl (fun acc m => do let a ← acc; let v ← μ m; pure (a + v)) (some (0 : Rat))
-          let n : Nat := if p.1 = nTerm || p.1 = cTerm then 1 else countSub p.1 a.seq
-          pure (a0 + s * (n : Rat))) (some (0 : Rat))
-  pure (placed + stat)
+def modsValue (env : Env) (mono : Bool) (l : List Mod) : Rat := sumR (l.map (modValue env mono))
 
-/-- **the specification of C02**: `none` = outside the specification's domain (unknown residue / ion type / mod) -/
+/-- every written modification: labile (precursor only), unknown, N-term, intervals, residues, C-term -/
+def placedMods (a : Annotation) (ion : Key) : List Mod :=
+  (if ion = ionP then a.labile.getD [] else []) ++ a.unknown.getD [] ++ a.nterm.getD [] ++
+  (a.intervals.getD []).flatMap (fun iv => iv.mods.getD []) ++ (a.internal.getD []).flatMap (·.2) ++ a.cterm.getD []
+
+/-- global rules: terminal rules once, a residue rule once per matching residue -/
+def staticValue (env : Env) (mono : Bool) (a : Annotation) : Rat :=
+  match a.static with
+  | none => 0
+  | some st =>
+    match env.parseStatic st with
+    | .error _ => 0
+    | .ok map =>
+      (match map.lookup nTerm with | some l => modsValue env mono l | none => 0) +
+      (match map.lookup cTerm with | some l => modsValue env mono l | none => 0) +
+      sumR (map.map fun p => if p.1 = nTerm || p.1 = cTerm then 0
+                             else modsValue env mono p.2 * ((countSub p.1 a.seq : Nat) : Rat))
+
+/-- **the specification of C02** -/
+def specMassT (T : MassTable) (env : Env) (a : Annotation) (ion : Key) (charge : Int) (mono : Bool) (isotope : Int)
+    (loss : Rat) (adducts : Option (List Nat)) : Rat :=
+  residueSum T mono a.seq + (neutralOffset T mono ion).getD 0 +
+  (staticValue env mono a + modsValue env mono (placedMods a ion)) +
+  chargeTerm T mono ion charge adducts + (isotope : Rat) * T.neutron + loss
+
+def modResolves (env : Env) (mono : Bool) (m : Mod) : Bool :=
+  match (if mono then (env.res m.val).mono else (env.res m.val).avg) with
+  | .ok _ => true
+  | .error _ => false
+
+/-- domain of the specification: known residues, known ion type, every modification resolves, the rules parse, the
+adduct list parses and is stated for the (un)charged peptide (for fragment ion types the library replaces the whole
+ion-forming part - transferred hydrogens included - by the list, which C02 does not cover) -/
+def inDomain (env : Env) (a : Annotation) (ion : Key) (mono : Bool) (adducts : Option (List Nat)) : Bool :=
+  a.seq.all (fun c => (lookup c.toNat residueFormula).isSome) &&
+  (neutralOffset lib mono ion).isSome &&
+  (placedMods a ion).all (modResolves env mono) &&
+  (match a.static with
+    | none => true
+    | some st => match env.parseStatic st with
+      | .error _ => false
+      | .ok map => map.all (fun p => p.2.all (modResolves env mono))) &&
+  (match adducts with
+    | none => true
+    | some s => (ion = ionP || ion = ionN) && (splitComma s).all (fun x => match parseIonElements x with | .ok _ => true | .error _ => false))
+
+/-- executable form used by the oracle: `none` = outside the domain -/
 def specMass (T : MassTable) (env : Env) (a : Annotation) (ion : Key) (charge : Int) (mono : Bool) (isotope : Int)
-    (loss : Rat) (adducts : Option (List Nat)) : Option Rat := do
-  let rs ← residueSum T mono a.seq
-  let off ← neutralOffset T mono ion
-  let ms ← modSum env mono a ion
-  let ct ← chargeTerm T mono ion charge adducts
-  pure (rs + off + ms + ct + (isotope : Rat) * T.neutron + loss)
-
-def specMz (T : MassTable) (env : Env) (a : Annotation) (ion : Key) (charge : Int) (mono : Bool) (isotope : Int)
     (loss : Rat) (adducts : Option (List Nat)) : Option Rat :=
-  (specMass T env a ion charge mono isotope loss adducts).map (fun m => if charge = 0 then m else m / (charge : Rat))
+  if inDomain env a ion mono adducts then some (specMassT T env a ion charge mono isotope loss adducts) else none
 
 end Spec
 end Pept
